@@ -43,6 +43,29 @@ impl Elt for String {
     }
 }
 
+/// The same elements through iterators of different kinds: exact-size, lower size bound 0
+/// (filter, flat_map, from_fn, scan), chained, peekable, and another set's own iterator —
+/// the property quantifies over "construction from an iterator" and "extend", not over Vec.
+fn feed<'a, T: Elt + 'a>(xs: Vec<T>, k: usize) -> Box<dyn Iterator<Item = T> + 'a> {
+    match k % 8 {
+        0 => Box::new(xs.into_iter()),
+        1 => Box::new(xs.into_iter().filter(|_| true)),
+        2 => Box::new(xs.into_iter().flat_map(Some)),
+        3 => {
+            let mut it = xs.into_iter();
+            Box::new(std::iter::from_fn(move || it.next()))
+        }
+        4 => {
+            let mid = xs.len() / 2;
+            let (a, b) = (xs[..mid].to_vec(), xs[mid..].to_vec());
+            Box::new(a.into_iter().chain(b.into_iter().filter(|_| true)))
+        }
+        5 => Box::new(xs.into_iter().peekable()),
+        6 => Box::new(xs.into_iter().scan((), |_, x| Some(x))),
+        _ => Box::new(xs.into_iter().rev().collect::<Vec<_>>().into_iter().rev()),
+    }
+}
+
 fn show_set<T: Elt>(s: &Oset<T>) -> String {
     format!("[{}]", s.into_iter().map(|x| x.show()).collect::<Vec<_>>().join(","))
 }
@@ -54,8 +77,9 @@ fn run_script<T: Elt>(script: &str) -> (Oset<T>, String, bool) {
     let mut oracle: BTreeSet<T> = BTreeSet::new();
     let mut trace = String::new();
     let mut agree = true;
-    for op in script.trim().split(';').filter(|w| !w.is_empty()) {
+    for (opi, op) in script.trim().split(';').filter(|w| !w.is_empty()).enumerate() {
         let (kind, arg) = (op.as_bytes()[0], &op[2..]);
+        let adaptor = opi + script.len();
         let elems = |a: &str| -> Vec<T> {
             a.split(',').filter(|w| !w.is_empty()).map(T::parse).collect()
         };
@@ -68,13 +92,13 @@ fn run_script<T: Elt>(script: &str) -> (Oset<T>, String, bool) {
             }
             b'e' => {
                 let xs = elems(arg);
-                s.extend(xs.clone());
+                s.extend(feed(xs.clone(), adaptor));
                 oracle.extend(xs);
                 trace.push_str(&show_set(&s));
             }
             b'f' => {
                 let xs = elems(arg);
-                s = xs.clone().into_iter().collect();
+                s = feed(xs.clone(), adaptor).collect();
                 oracle = xs.into_iter().collect();
                 trace.push_str(&show_set(&s));
             }
